@@ -423,20 +423,6 @@ Proof.
   cbn [dt_call length]. unfold tuple_check. rewrite H2. destruct (is_str_bytes_dict w); reflexivity.
 Qed.
 
-(* setParameterFromString hands over the internal value: an enum member or a bytes object never reaches the node *)
-Lemma setparam_enum_unserialisable C E dc d t n z :
-  from_string C dc t = Ok (PEnum n z) -> set_from_string C E dc d t = Err EType.
-Proof. intros H. unfold set_from_string. rewrite H. reflexivity. Qed.
-Lemma setparam_bytes_unserialisable C E dc d t b :
-  from_string C dc t = Ok (PBytes b) -> set_from_string C E dc d t = Err EType.
-Proof. intros H. unfold set_from_string. rewrite H. reflexivity. Qed.
-
-(* ... and a scaled value arrives as the float, of which the node keeps the integer part times the scale *)
-Lemma setparam_scaled_truncates C E dc s mn mx t f :
-  from_string C dc t = Ok (PFloat f) ->
-  set_from_string C E dc (TScaled s mn mx) t = scaled_import E s (PFloat f) >>= fun v => scaled_validate s mn mx v.
-Proof. intros H. unfold set_from_string. rewrite H. reflexivity. Qed.
-
 (* the client side of a string type without maxchars limit but with a minimum length accepts exactly that length *)
 Lemma client_string_collapses minc u : minc <> 0%Z ->
   client_of (TString minc UNLIMITED u) = Ok (TString minc minc u).
@@ -445,11 +431,12 @@ Proof.
   destruct (Z.eqb_spec minc 0); [contradiction|reflexivity].
 Qed.
 
-(* with export_value in place, setParameterFromString would be from_string followed by the wire round trip *)
-Lemma setparam_exported_roundtrip C E d t w :
+(* setParameterFromString(text): from_string, export_value, then the node's import_value + validate: whenever the text
+   is accepted with a valid value w, the node ends up with a value equal to w *)
+Lemma setparam_roundtrip C E d t w :
   b64_law E C -> num_leaves (num_rt E C) d -> from_string C d t = Ok w -> valid d w = true ->
-  exists v', set_from_string_exported C E d d t = Ok v' /\ py_eq w v'.
+  exists v', set_from_string C E d d t = Ok v' /\ py_eq w v'.
 Proof.
   intros HB HL H Hv. destruct (wire_roundtrip E C HB d HL w Hv) as (j & w' & v' & H1 & H2 & H3 & H4 & _).
-  exists v'. unfold set_from_string_exported, wire. rewrite H. cbn. rewrite H1. cbn. rewrite H2. cbn. auto.
+  exists v'. unfold set_from_string, wire. rewrite H. cbn. rewrite H1. cbn. rewrite H2. cbn. auto.
 Qed.
